@@ -312,6 +312,12 @@ class Gen:
                 self.module(child, it.name, "pub", depth + (0 if is_root else 1))
             else:
                 rest.append(it)
+        # fallback: free functions that have no side-car entry (a helper introduced by a refactoring)
+        self.unknown_fns = set()
+        if self.fallback:
+            for it in rest:
+                if it.kind == "fn" and contracts.get(self.item_key(it, None)) is None:
+                    self.unknown_fns.add(it.name)
         self.emit(f"{ind}verus! {{")
         groups = ["prelude_axioms"] + extra_groups
         self.emit(f"{ind}broadcast use {{" + ", ".join(("crate::lemmas::" if g_.endswith("_lemmas") else "crate::prelude::") + g_ for g_ in groups) + "};")
@@ -544,6 +550,18 @@ class Gen:
     # -- functions
     def fn_item(self, it, relsrc, key, c, attrs, ind, container):
         in_trait_decl = container is not None and container.kind == "trait"
+        if c is None and self.fallback and container is None and it.body_open is not None and it.name in getattr(self, "unknown_fns", ()):
+            # a new free function without contract: nothing is known about it, nothing is assumed about
+            # it (external_body, no clauses); every function that calls it is externalised as well (below),
+            # so no proof ever rests on it and the properties of its callers are decided by the bounded stand-in
+            for a in attrs:
+                self.emit(ind + a)
+            self.emit(ind + "#[verifier::external_body]")
+            self.emit(ind + it.text(it.attr_hi, it.body_open).rstrip(), {"src": relsrc, "line": it.line, "item": key})
+            self.emit(ind + "{ unimplemented!() }")
+            self.externalised.append({"src": relsrc, "item": key, "reason": "new function without a contract (no side-car entry): left unverified, nothing assumed about it; its callers are externalised"})
+            self.count("fallback_unknown_fn")
+            return
         if c is None:
             raise ExtractError(f"{relsrc}:{it.line}: function without side-car entry (unknown item): {key}")
         toks = it.toks
@@ -655,8 +673,11 @@ class Gen:
         forced = None
         body_text = None
         if it.body_open is not None:
+            callee = next((n for n in sorted(getattr(self, "unknown_fns", ())) if re.search(r"\b" + re.escape(n) + r"\s*(::<[^>]*>)?\(", it.text(it.body_open, it.body_close + 1))), None)
             if f"{relsrc}::{key}" in self.force_external:
                 forced = "outside the verified subset (verifier rejected a construct in this function)"
+            elif callee is not None:
+                forced = f"calls `{callee}`, a new function without a contract"
             else:
                 try:
                     body_text = self.rewrite_body(it.text(it.body_open, it.body_close + 1), relsrc, key, c, mut_self)
